@@ -48,6 +48,14 @@ let build cfg (k : famkind) (ap : bool) (mode : String.t) (ops : String.t) : Str
                incr count;
                b := if kd = "A" then add_announcement !b n else add_withdrawal !b n
              | _ -> raise Prep)
+          | [("AI" | "WI" | "WV") as kd; hs] ->
+            List.iter (fun h ->
+                if h <> "" && h <> "-" then
+                  match parse_nlri k ap (parser_of (bytes_of_hex h)) with
+                  | Ok (n, p) when p.p_rest = [] ->
+                    incr count;
+                    b := if kd = "AI" then add_announcement !b n else add_withdrawal !b n
+                  | _ -> raise Prep) (split_on ',' hs)
           | ["N"; kind; h] ->
             (match nexthop kind h with
              | Some nh -> b := set_nexthop !b nh
